@@ -315,4 +315,14 @@ void run_C13(void) {
           }
     }
   }
+  // in-place automorphisms (and rotations) exactly 2^8 and 2^16 calls after the previous one on the ring
+  {
+    static const int64_t PA[] = {5, 3, -3, 25, 7, -5, 9, 17};
+    for (unsigned rep = 0; rep < (th ? 24u : 8u); rep++)
+      for (int which = 0; which < 4; which++) {
+        const uint64_t N = rep & 1 ? 32 : 64;
+        const int aut = which & 1;
+        ops_ring_history_case(which, N, aut ? PA[rep % 8] : 4 * (int64_t)(1 + rep % 7), (rep & 2) ? N : 2, aut ? ((rep & 2) ? -1 : 3) : 1, rep < 16, rep, "long_history_calls");
+      }
+  }
 }
